@@ -432,10 +432,11 @@ def ob_f(ob):
     from seqm.seqm_functions import diat_overlap_PM6_SP as DO
 
     ob.encodes(DO.diatom_overlap_matrix_PM6_SP)
-    ob.bound("one pair; the two principal quantum numbers symbolic integers in [0, 9] with n_i >= n_j (the Parser orders a pair by atomic number); path forking over the dispatch table and its guard")
+    ob.bound("one pair; the two principal quantum numbers symbolic integers in [0, 9] (thorough: [0, 40]) with n_i >= n_j (the Parser orders a pair by atomic number); path forking over the dispatch table and its guard")
     ob.assume("the auxiliary-integral routine SET is a sentinel: reaching it means the pair was accepted (its formulas are C06.g)")
     qi, qj = z3.Ints("qi qj")
-    assm = [qi >= 0, qi <= 9, qj >= 0, qj <= 9, qi >= qj]
+    top = 9 if ob.tier != "thorough" else 40
+    assm = [qi >= 0, qi <= top, qj >= 0, qj <= top, qi >= qj]
     saved = DO.SET
 
     def sentinel(*a, **k):
